@@ -147,7 +147,23 @@ impl C05 {
 
     fn set_case(&self, rng: &mut Rng, out: &mut CaseOut) -> Json {
         let n_terms = 26usize;
-        let ids: Vec<u32> = (0..n_terms as u32).map(|i| 10 + i * 3).collect();
+        // ids chosen so that sloppy cache keys collide: dense small ids (sums / xors collide) and ids of
+        // the form 65536*j + c (bit-packing with a too small shift collides with (a | j, c))
+        let mut ids: Vec<u32> = (2..=9).collect();
+        for j in 1..=3u32 {
+            for c in 2..=7u32 {
+                ids.push(65_536 * j + c);
+            }
+        }
+        if rng.chance(1, 3) {
+            // or arbitrary sparse ids
+            let mut set = std::collections::BTreeSet::new();
+            while set.len() < n_terms {
+                set.insert(rng.range(2, 9_999_999) as u32);
+            }
+            ids = set.into_iter().collect();
+        }
+        assert_eq!(ids.len(), n_terms);
         let ont = flat_ontology(&ids);
         let sim = TableSim { seed: rng.next_u64(), symmetric: rng.chance(1, 3), mode: rng.next_u64(), calls: RefCell::new(vec![]) };
         let cached = CachedSimilarity::new(ByRef(&sim));
@@ -218,15 +234,19 @@ impl C05 {
             }
         }
         // the cache must return f for any query afterwards as well
-        for _ in 0..20 {
-            let x = *rng.pick(&ids);
-            let y = *rng.pick(&ids);
-            let (tx, ty) = (ont.hpo(x).unwrap(), ont.hpo(y).unwrap());
-            let v = cached.calculate(&tx, &ty);
-            out.check(v.to_bits() == sim.value(x, y).to_bits(), "C05", "cache_returns_other_value", || {
-                format!("CachedSimilarity({x},{y}) = {v}, f = {}", sim.value(x, y))
-            });
+        for x in &ids {
+            for y in &ids {
+                let (tx, ty) = (ont.hpo(*x).unwrap(), ont.hpo(*y).unwrap());
+                let v = cached.calculate(&tx, &ty);
+                out.check(v.to_bits() == sim.value(*x, *y).to_bits(), "C05", "cache_returns_other_value", || {
+                    format!("CachedSimilarity({x},{y}) = {v}, f = {}", sim.value(*x, *y))
+                });
+                // and again (now certainly served from the cache)
+                let v2 = cached.calculate(&tx, &ty);
+                out.check(v2.to_bits() == v.to_bits(), "C05", "cache_unstable", || format!("CachedSimilarity({x},{y}) returned {v} then {v2}"));
+            }
         }
+        bump(&mut out.events, "CachedSimilarity::all_pairs");
         Json::obj().set("symmetric_f", Json::Bool(sim.symmetric)).set("set_pairs", Json::Arr(desc))
     }
 }
